@@ -107,6 +107,14 @@ func classify(s *sut, r *request, compiled bool) string {
 	if loose == compiled {
 		return "namespace-regex-spans-slash"
 	}
+	// a `prefix*` requestPrincipals value is split at ITS last '/' into an exact issuer and a subject
+	// prefix, so a prefix that ends inside the issuer (e.g. "https://issuer.exa*") matches nothing
+	looseJWTPrefix = true
+	loose = specDecision(s, r)
+	looseJWTPrefix = false
+	if loose == compiled {
+		return "request-principal-prefix-inside-issuer"
+	}
 	return "other"
 }
 
